@@ -137,7 +137,10 @@ def coords_to_sln_lie_algebra(coord_vector, dtype=None,
                            autoconvert=autoconvert)
 
 def linear_matrix_action(linear_map, n, **kwargs):
-    base_ring, dtype = utils.check_type(**kwargs)
+    # the images involve inverses: never an integer dtype
+    base_ring, dtype = utils.check_type(
+        integer_type=kwargs.pop("integer_type", False), **kwargs
+    )
     template = utils.zeros((n*n, n*n), base_ring, dtype)
     map_matrix = None
 
@@ -161,7 +164,10 @@ def linear_matrix_action(linear_map, n, **kwargs):
     return map_matrix
 
 def sln_linear_action(linear_map, n, **kwargs):
-    base_ring, dtype = utils.check_type(**kwargs)
+    # the images involve inverses: never an integer dtype
+    base_ring, dtype = utils.check_type(
+        integer_type=kwargs.pop("integer_type", False), **kwargs
+    )
     template = utils.zeros((n**2 - 1, n**2 - 1), base_ring, dtype)
     map_matrix = None
 
@@ -247,7 +253,7 @@ def sl2_irrep(A, n):
     c = A[..., 1, 0]
     d = A[..., 1, 1]
 
-    im = utils.zeros(A.shape[:-2] +(n, n), like=A)
+    im = utils.zeros(A.shape[:-2] +(n, n), like=A, integer_type=False)
     r = n - 1
     for k in range(n):
         for j in range(n):
